@@ -242,13 +242,20 @@ impl SomeExpressionEvaluator {
   ///
   pub fn evaluate(&mut self, scope: &Scope, evaluator: &Evaluator) -> Value {
     let mut result = false;
+    let mut unknown = false;
     self.feel_iterator.run(|ctx| {
       scope.push(ctx.clone());
       if let Value::Boolean(value) = evaluator(scope) {
         result = result || value;
+      } else {
+        unknown = true;
       }
       scope.pop();
     });
+    // ternary disjunction: true if any value is true, otherwise null if any value is not a boolean
+    if unknown && !result {
+      return Value::Null(None);
+    }
     Value::Boolean(result)
   }
 }
@@ -276,13 +283,20 @@ impl EveryExpressionEvaluator {
   ///
   pub fn evaluate(&mut self, scope: &Scope, evaluator: &Evaluator) -> Value {
     let mut result = true;
+    let mut unknown = false;
     self.feel_iterator.run(|ctx| {
       scope.push(ctx.clone());
       if let Value::Boolean(value) = evaluator(scope) {
         result = result && value;
+      } else {
+        unknown = true;
       }
       scope.pop();
     });
+    // ternary conjunction: false if any value is false, otherwise null if any value is not a boolean
+    if unknown && result {
+      return Value::Null(None);
+    }
     Value::Boolean(result)
   }
 }
